@@ -42,7 +42,13 @@ C03(E, S, line) ==
         /\ \/ /\ NWords(E.qtok) = 1 /\ ~E.qtok.words[1].fin
               /\ IsPrefixOf(QWord(E, 1), RWord(S, X.rid, X.widx))
            \/ /\ Len(E.q) >= 1 /\ IsPrefixOf(E.q, RWord(S, X.rid, X.widx))
-              /\ IsAlnum(E.q[Len(E.q)]),
+              /\ IsAlnum(E.q[Len(E.q)])
+           \* ... or the first characters of the word as it is written in the title (upper case, accents and sharp s
+           \* as in the original), again ending in a letter or digit
+           \/ /\ Len(E.q) >= 1 /\ IsAlnum(E.q[Len(E.q)])
+              /\ LET tok == RecOfS(S, X.rid).tok
+                     src == StripNul(SubSeq(tok.source, tok.words[X.widx].s + 1, tok.words[X.widx].e))
+                 IN IsPrefixOf(E.q, src),
         InHits(E, X.rid), line, "C03", "a prefix of a title word does not find the record")
 
 \* C04: one edit in a word of >= 5 letters (>= 3 distinct) still finds the record
